@@ -519,8 +519,13 @@ inline void m11(const Edge& e, const Parsed& P) {
 		return;
 	}
 	switch (e.op.k) {
-	case OP_REPLAY_T: if (!e.res.ret) flag(C11, "replay-returned-false", e, "replayTransition(%d)", e.op.a); if (e.post.active != e.op.a) flag(C11, "replay-activity", e, "active=%d", e.post.active); if (!(e.post.prev.d == e.op.a)) flag(C11, "replay-history", e, "previousTransition().destination=%d", e.post.prev.d); break;
-	case OP_REPLAY_E: if (e.post.active != e.op.a) flag(C11, "replay-activity", e, "active=%d", e.post.active); if (!(e.post.prev.d == e.op.a)) flag(C11, "replay-history", e, "previousTransition().destination=%d", e.post.prev.d); break;
+	case OP_REPLAY_T: if (!e.res.ret) flag(C11, "replay-returned-false", e, "replayTransition(%d)", e.op.a); if (e.post.active != e.op.a) flag(C11, "replay-activity", e, "active=%d", e.post.active); if (!(e.post.prev.d == e.op.a)) flag(C11, "replay-history", e, "previousTransition().destination=%d", e.post.prev.d);
+		if (e.post.prev.d == e.op.a && (e.post.prev.o != NONE8 || e.post.prev.set)) flag(C11, "replay-history", e, "after replayTransition(%d) previousTransition() = %d>%d/p%d: origin or payload of some earlier transition resurfaced", e.op.a, e.post.prev.o == NONE8 ? -1 : e.post.prev.o, e.post.prev.d, e.post.prev.tag);
+		break;
+	case OP_REPLAY_E: if (e.post.active != e.op.a) flag(C11, "replay-activity", e, "active=%d", e.post.active); if (!(e.post.prev.d == e.op.a)) flag(C11, "replay-history", e, "previousTransition().destination=%d", e.post.prev.d);
+		// what was replayed is the bare destination: the history of the replica shows neither a requester nor a payload (whatever the instance did in an earlier activation)
+		if (e.post.prev.d == e.op.a && (e.post.prev.o != NONE8 || e.post.prev.set)) flag(C11, "replay-history", e, "after replayEnter(%d) previousTransition() = %d>%d/p%d: origin or payload of some earlier transition resurfaced", e.op.a, e.post.prev.o == NONE8 ? -1 : e.post.prev.o, e.post.prev.d, e.post.prev.tag);
+		break;
 	case OP_LOAD: if (!tx_empty(e.post.prev) && e.post.prev.d != e.post.active) flag(C11, "history-stale-after-load", e, "after load() previousTransition().destination=%d while state %d is active: a replica fed this destination diverges", e.post.prev.d, e.post.active); break;
 	case OP_REPLAY_T_INV: if (e.res.ret) flag(C11, "replay-invalid-returned-true", e, "replayTransition(INVALID)"); if (!e.key_unchanged) flag(C11, "replay-invalid-changed-state", e, "state differs after replayTransition(INVALID): previousTransition %d>%d -> %d>%d", e.pre.prev.o, e.pre.prev.d, e.post.prev.o, e.post.prev.d); if (P.ncb) flag(C11, "replay-invalid-callbacks", e, "%d callbacks", P.ncb); break;
 	case OP_CHANGE: case OP_CHANGEW: case OP_QUERY: case OP_SAVE: case OP_ATTACH: case OP_PLAN_CHANGE: case OP_PLAN_CHANGEW: case OP_PLAN_CLEAR: case OP_PLAN_REMOVE: case OP_SUCCEED: case OP_FAIL: case OP_COPY:
